@@ -3,7 +3,7 @@
 S=$1; SEED=${2:-1}; N=${3:-200}; TIER=${4:-quick}
 R=$(cd "$(dirname "$0")/.." && pwd)
 D=$R/out/cmp; mkdir -p $D
-H=$R/harness/target/debug/kv-harness
+H=${KV_HBIN:-$R/harness/target/debug/kv-harness}   # KV_HBIN: a harness built against another tree (check builds it under /var/tmp/kv-alt)
 T=$R/lean/.lake/build/bin/kira_twin
 $H gen $S $SEED $N $TIER | grep -v '^#' > $D/ops.txt
 $T $S < $D/ops.txt > $D/model.txt
